@@ -150,7 +150,23 @@ fn gen_custom_family(src: &mut Src) -> (Option<Desc>, MetricFamily, NFamily) {
             NType::Gauge => NValue::Gauge(gen_value(src)),
             NType::Histogram => {
                 let nb = src.below(4);
-                NValue::Histogram { count: src.u64raw() >> src.below(64), sum: gen_value(src), buckets: (0..nb).map(|i| (if src.chance(40) { f64::INFINITY } else { i as f64 + gen_value(src) }, src.below(1000) as u64)).collect() }
+                if src.chance(80) {
+                    // a self-consistent histogram, the way an exporter of somebody else's histogram builds it: cumulative counts, often an
+                    // explicit +Inf bucket that repeats the sample count (also the all-zero histogram)
+                    let mut acc = 0u64;
+                    let mut buckets: Vec<(f64, u64)> = (0..nb)
+                        .map(|i| {
+                            acc += src.below(4) as u64 * src.below(300) as u64;
+                            (i as f64 * 2.5 + 0.5, acc)
+                        })
+                        .collect();
+                    if src.chance(160) {
+                        buckets.push((f64::INFINITY, acc));
+                    }
+                    NValue::Histogram { count: acc, sum: gen_value(src), buckets }
+                } else {
+                    NValue::Histogram { count: src.u64raw() >> src.below(64), sum: gen_value(src), buckets: (0..nb).map(|i| (if src.chance(40) { f64::INFINITY } else { i as f64 + gen_value(src) }, src.below(1000) as u64)).collect() }
+                }
             }
             _ => {
                 let nq = src.below(3);
